@@ -226,7 +226,7 @@ func loadProgram(spec *Spec) (*Program, error) {
 		"internal/syscall/unix", "internal/syscall/execenv", "path/filepath", "io/ioutil", "os/exec", "os/user", "testing", "flag", "net/http", "encoding/gob",
 		"go.opentelemetry.io/otel", "hash/crc32", "internal/sysinfo", "internal/abi", "internal/chacha8rand", "crypto/internal/boring", "crypto/internal/randutil",
 		"mime", "net/url", "compress/flate", "compress/gzip", "text/template", "html/template", "regexp", "regexp/syntax", "vendor/golang.org/x/net/http2/hpack",
-		"github.com/mattn/go-isatty", "github.com/ipld/go-ipld-prime/schema/dmt", "github.com/ipld/go-ipld-prime/schema/dsl", "github.com/ipld/go-ipld-prime/node/bindnode", "google.golang.org/protobuf/internal/detrand", "encoding/json", "github.com/multiformats/go-multihash/register/blake2", "github.com/multiformats/go-multihash/register/blake3",
+		"github.com/mattn/go-isatty", "github.com/davecgh/go-spew/spew", "github.com/stretchr/testify/assert", "github.com/stretchr/testify/assert/yaml", "github.com/stretchr/testify/require", "gopkg.in/yaml.v3", "github.com/pmezard/go-difflib/difflib", "net/http/httptest", "text/tabwriter", "github.com/ipld/go-ipld-prime/schema/dmt", "github.com/ipld/go-ipld-prime/schema/dsl", "github.com/ipld/go-ipld-prime/node/bindnode", "google.golang.org/protobuf/internal/detrand", "encoding/json", "github.com/multiformats/go-multihash/register/blake2", "github.com/multiformats/go-multihash/register/blake3",
 		"github.com/multiformats/go-multihash/register/sha3", "github.com/multiformats/go-multihash/register/murmur3", "github.com/multiformats/go-multihash/register/miniosha256",
 		"github.com/multiformats/go-multihash/register/sha256", "github.com/multiformats/go-multihash/register/all"} {
 		p.denyInit[d] = true
